@@ -178,3 +178,62 @@ Section ContArith.
   Lemma cont_Cconst (c : C) (x : U) : continuous (fun _ : U => c) x.
   Proof. apply (continuous_const (V := C_UniformSpace)). Qed.
 End ContArith.
+
+(* ---- the principal square root and its branch cut (the closed negative real axis) *)
+(* off the cut — i.e. wherever Re (Csqrt w0) > 0 — Csqrt is continuous (same Lipschitz argument as at positive reals) *)
+Lemma continuous_Csqrt_off_cut (w0 : C) : 0 < fst (Csqrt w0) -> continuous Csqrt w0.
+Proof.
+  intros Hs0. set (r0 := fst (Csqrt w0)) in *.
+  apply (continuous_C_from_bound Csqrt w0 (/ r0) 1).
+  - lra.
+  - left. apply Rinv_0_lt_compat. assumption.
+  - intros u _. set (s := Csqrt u). set (s0 := Csqrt w0).
+    assert (E : Cmult (Cminus s s0) (Cplus s s0) = Cminus u w0).
+    { replace (Cmult (Cminus s s0) (Cplus s s0)) with (Cminus (Cmult s s) (Cmult s0 s0)) by ring.
+      unfold s, s0. rewrite !Csqrt_sqr. reflexivity. }
+    assert (Hp : r0 <= Cmod (Cplus s s0)).
+    { eapply Rle_trans; [|apply Cmod_ge_fst]. unfold Cplus; cbn [fst snd].
+      pose proof (Csqrt_re_nonneg u) as Hu. fold s in Hu.
+      assert (Hr : fst s0 = r0) by reflexivity. rewrite Hr. rewrite Rabs_pos_eq; lra. }
+    rewrite <- E, Cmod_mult.
+    pose proof (Cmod_ge_0 (Cminus s s0)).
+    apply Rmult_le_reg_l with r0; [assumption|].
+    replace (r0 * (/ r0 * (Cmod (Cminus s s0) * Cmod (Cplus s s0)))) with (Cmod (Cminus s s0) * Cmod (Cplus s s0)) by (field; lra).
+    nra.
+Qed.
+
+(* Re (Csqrt w) > 0 exactly off the closed negative real axis *)
+Lemma Csqrt_re_pos_iff (w : C) : 0 < fst (Csqrt w) <-> ~ (fst w <= 0 /\ snd w = 0).
+Proof.
+  destruct w as [x y]. unfold Csqrt; cbn [fst snd].
+  pose proof (Cmod_ge_re (x, y)) as Hre; cbn [fst] in Hre.
+  pose proof (Cmod_sq (x, y)) as Hsq; cbn [fst snd] in Hsq.
+  set (m := Cmod (x, y)) in *. pose proof (Cmod_ge_0 (x, y)) as Hm. fold m in Hm.
+  split.
+  - intros Hpos [Hx Hy]. subst y.
+    assert (m = - x) by (assert (m * m = x * x) by lra; nra).
+    replace ((m + x) / 2) with 0 in Hpos by lra. rewrite sqrt_0 in Hpos. lra.
+  - intros Hn. apply sqrt_lt_R0.
+    assert (Hle : - x <= m) by (unfold Rabs in Hre; destruct (Rcase_abs x); lra).
+    destruct (Req_dec y 0) as [Hy|Hy].
+    + assert (0 < x) by (destruct (Rle_dec x 0); [exfalso; apply Hn; split; assumption | lra]). lra.
+    + assert (x * x < m * m) by (assert (0 < y * y) by nra; lra).
+      assert (- x < m) by (destruct (Rle_dec 0 x); nra). lra.
+Qed.
+
+(* on the two sides of the cut the imaginary part of Csqrt is bounded away from 0 with opposite signs: a jump of at least
+   2 sqrt(-Re w) across the negative real axis *)
+Lemma Csqrt_above_cut (w : C) : fst w < 0 -> 0 <= snd w -> sqrt (- fst w) <= snd (Csqrt w).
+Proof.
+  destruct w as [x y]. cbn [fst snd]. intros Hx Hy. unfold Csqrt; cbn [fst snd].
+  destruct (Rle_dec 0 y); [|lra]. rewrite Rmult_1_l. apply sqrt_le_1_alt.
+  pose proof (Cmod_ge_re (x, y)) as Hre; cbn [fst] in Hre. rewrite Rabs_left in Hre by assumption. lra.
+Qed.
+Lemma Csqrt_below_cut (w : C) : fst w < 0 -> snd w < 0 -> snd (Csqrt w) <= - sqrt (- fst w).
+Proof.
+  destruct w as [x y]. cbn [fst snd]. intros Hx Hy. unfold Csqrt; cbn [fst snd].
+  destruct (Rle_dec 0 y); [lra|].
+  assert (sqrt (- x) <= sqrt ((Cmod (x, y) - x) / 2)).
+  { apply sqrt_le_1_alt. pose proof (Cmod_ge_re (x, y)) as Hre; cbn [fst] in Hre. rewrite Rabs_left in Hre by assumption. lra. }
+  lra.
+Qed.
